@@ -5,7 +5,7 @@ import random
 
 ONE = ["x", "y", "z", "h", "s", "t"]
 CLASSICAL = ["x", "cx", "ccx", "mcx"]
-ANGLES = [math.pi / 2, math.pi / 4, math.pi / 8, 1.0, 2.5, -math.pi / 2, -0.3, 3 * math.pi / 4]
+ANGLES = [math.pi / 2, math.pi / 4, math.pi / 8, 1.0, 2.5, -math.pi / 2, -0.3, 3 * math.pi / 4, math.pi, -math.pi, 3 * math.pi / 2, -5 * math.pi / 4, 4.0, 2 * math.pi, 7.5, -6.0, 0.0]
 
 
 def build(case, enhanced=False, name="qc"):
